@@ -155,6 +155,19 @@ CHECKS = {
        "implementation of the %{name} / %fmt{name} substitution.",
   note="Quick tier probes every code of the categories that exist plus a sample of the others. Legal contexts come from "
        "the frozen table spec/events.json."),
+ "C08": dict(
+  cat="exploration", ref="DESIGN.md section 3, C08",
+  technique="runtime monitoring: generated nested words and single-fault variants per model through the real ovniemu [-l], reference stack model over the frozen event table as oracle, labels compared through the .pcf",
+  text="For each of the eight models: every enter/leave pair once with its documented label; random properly nested "
+       "words (several channels, depth up to 12, no immediate re-entry) which must be accepted with the innermost open "
+       "region's label shown after every event, and their cuts before the last k leaves, accepted without -l and "
+       "rejected with -l for the six models with subsystem/function stacks; single faults truncated right after the "
+       "faulty event (wrong partner, deleted enter, unmatched leave, double OF[) which must be rejected; immediate "
+       "re-entry for channels that forbid duplicates; chains to depth 512 (accepted) and 513 (rejected); the same "
+       "events with the thread paused, cooling, warming or out of CPU, rejected exactly where the model demands a "
+       "running or active thread.",
+  note="Oracle: lib/refemu.py FullSystem over spec/events.json. Models allowing duplicates (nOS-V, OpenMP) are only "
+       "judged in the direction the property states."),
 }
 
 NOT_YET = "check not implemented yet in this revision (work in progress, see DESIGN.md section 3)"
